@@ -49,11 +49,29 @@ def run(ctx):
                     got.setdefault(v[0], []).append((e, rest))
         ok = set(got) == {"Named", "Tuple", "Unit", "Newtype"}
         ctx.ob("C18.E.contains-shape-exhaustive", f.key, "four shapes", ok, "%s" % sorted(got))
+        # the set of (shape, flags) under which the answer is true, however the arms are cut
+        tc = ctx.true_conditions(f)
+        def holds(shape, flags):
+            """is the answer true for `shape` under this total assignment of the flags?"""
+            for d in tc:
+                if "discr(a2)=%s" % shape not in d:
+                    continue
+                if all(("self.%s=%s" % (k, v)) in d or not any(a.startswith("self.%s=" % k) for a in d) for k, v in flags.items()):
+                    if all(a.startswith("discr(a2)=") or re.match(r"^self\.(named|tuple|newtype|unit)=(True|False)$", a) for a in d):
+                        return True
+            return False
+        import itertools
         for v, flag in (("Named", "named"), ("Tuple", "tuple"), ("Unit", "unit")):
-            ctx.ob("C18.G.own-flag", f.key, "Shape::%s" % v, got.get(v) == [("self.%s" % flag, [])], "%s" % got.get(v))
-        nt = got.get("Newtype", [])
-        # newtype || tuple: true when newtype; else tuple
-        ok = sorted(nt) == sorted([("true", ["self.newtype=True"]), ("self.tuple", ["self.newtype=False"])])
+            ok = True
+            for vals in itertools.product([True, False], repeat=4):
+                fl = dict(zip(("named", "tuple", "newtype", "unit"), vals))
+                ok = ok and (holds(v, fl) == fl[flag])
+            ctx.ob("C18.G.own-flag", f.key, "Shape::%s" % v, ok, "true under %s" % [sorted(d) for d in tc if "discr(a2)=%s" % v in d])
+        ok = True
+        for vals in itertools.product([True, False], repeat=4):
+            fl = dict(zip(("named", "tuple", "newtype", "unit"), vals))
+            ok = ok and (holds("Newtype", fl) == (fl["newtype"] or fl["tuple"]))
+        nt = [sorted(d) for d in tc if "discr(a2)=Newtype" in d]
         ctx.ob("C18.G.tuple-admits-newtype", f.key, "Shape::Newtype → newtype || tuple", ok, "%s" % nt)
     f = ctx.fn(U + "ShapeSet::insert")
     if f:
@@ -278,7 +296,7 @@ def run(ctx):
             srcs = [ctx.expr(b2, t["args"][0]) for b2 in [g] for _, t in ctx.find_calls(b2, r"^core::option::Option::<T>::map$") if ctx.expr(b2, t["args"][0]) == "self.supports"]
             matched = [1 for blk in g.normal_blocks() if False]
             sw = [ctx.pc_strs(g, tk.blk) for c in [g] + ctx.closures_of(g) for tk in tpl.Templates(c).events if tk.kind == "interp" and tk.ty and "Shape" in tk.ty]
-            ctx.ob("C18.wire.supports-emitted", g.key, "supports.map(|s| quote!(.. #s ..))", len(srcs) == 1 or any(any(ctx._sat(d, r"^is_some\(self\.supports\)=True$") for d in pcs) and all(len(d) <= 1 for d in pcs) for pcs in sw),
+            ctx.ob("C18.wire.supports-emitted", g.key, "supports.map(|s| quote!(.. #s ..))", len(srcs) == 1 or any(bool(pcs) and all(ctx._sat(d, r"^is_some\(self\.supports\)=True$") and all(a_ == "is_some(self.supports)=True" or "self.base.data" in a_ for a_ in d) for d in pcs) for pcs in sw),
                    "the shape set is interpolated from self.supports under no other condition: map sources %s, interpolation conditions %s" % (srcs, sw))
     # callers in element-level derives: variant-level supports
     f = ctx.fn(common.TOK % "from_variant_impl::FromVariantImpl<'_>")
